@@ -206,6 +206,45 @@ Proof.
     rewrite (proj2 (nth_error_None _ _)) in H by (unfold zlen in Hs; lia). discriminate.
 Qed.
 
+(* ------------------------------------------------------------------ widening a short flag word *)
+Lemma nth_error_repeatz n k x : nth_error (repeatz 0 n) k = Some x -> x = 0.
+Proof.
+  revert k. induction n; intros k H; [destruct k; discriminate|].
+  destruct k; [inversion H; reflexivity | simpl in H; eauto].
+Qed.
+
+Lemma rfc_bit_app_zeros bs n j : 0 <= j ->
+  bit_or_false (rfc_bit (bs ++ repeatz 0 n) j) = bit_or_false (rfc_bit bs j).
+Proof.
+  intros Hj. unfold rfc_bit.
+  destruct (Nat.lt_ge_cases (Z.to_nat (j / 8)) (length bs)) as [L | L].
+  - rewrite nth_error_app1 by assumption. reflexivity.
+  - rewrite nth_error_app2 by assumption. rewrite (proj2 (nth_error_None bs _)) by assumption.
+    destruct (nth_error (repeatz 0 n) (Z.to_nat (j / 8) - length bs)) eqn:E; [|reflexivity].
+    apply nth_error_repeatz in E. subst. cbn [bit_or_false]. apply Z.bits_0.
+Qed.
+
+(* appending the padding never changes what IsFlagSet reports: flag i keeps its number *)
+Theorem pad4_preserves_flags f j : 0 <= j -> is_flag_set (pad4 f) j = is_flag_set f j.
+Proof. intros. rewrite !is_flag_set_spec by assumption. rewrite pad4_bytes, rfc_bit_app_zeros by assumption. reflexivity. Qed.
+
+Theorem kdc_options_widen_preserves_flags f j :
+  0 <= j -> is_flag_set (kdc_options_widen f) j = is_flag_set f j /\
+            (4 <= length (bs_bytes (kdc_options_widen f)))%nat.
+Proof.
+  intros Hj. unfold kdc_options_widen. destruct (Nat.ltb_spec (length (bs_bytes f)) 4).
+  - split.
+    + rewrite !is_flag_set_spec by assumption. cbn [bs_bytes]. rewrite rfc_bit_app_zeros by assumption. reflexivity.
+    + cbn [bs_bytes]. rewrite app_length, repeatz_length. lia.
+  - split; [reflexivity | lia].
+Qed.
+
+(* the pinned tree prepended the padding: a one-octet word with forwardable (bit 1) set reads as bit 25 *)
+Example pad4_front_moves_flags :
+  let f := mkBits [64] 8 in
+  is_flag_set f 1 = Ok true /\ is_flag_set (pad4_front f) 1 = Ok false /\ is_flag_set (pad4_front f) 25 = Ok true /  is_flag_set (kdc_options_widen f) 1 = Ok true /\ is_flag_set (kdc_options_widen f) 25 = Ok false.
+Proof. repeat split. Qed.
+
 (* ------------------------------------------------------------------ SetFlag / UnsetFlag *)
 Lemma rfc_bit_update l l' i g :
   0 <= i -> upd_nat l (Z.to_nat (i / 8)) g = Some l' ->
